@@ -44,7 +44,7 @@ Proof. vm_compute. split; [reflexivity | discriminate]. Qed.
 
 (* tie A for the accessor: what gr_slot_advance_X / gr_slot_advance_Y return with an unhinted font (definitions regenerated from their
    bodies in src/gr_slot.cpp) is the value with font = NULL multiplied by the font's scale -- whether or not the caller passes the face. *)
-From GR Require Import Gen.GenLoop Proofs.GenAgreeLoop.
-Theorem C15_slot_advance_scales : forall res scale face_given, GenLoop.slot_advance_unhinted res scale face_given = (scale * GenLoop.slot_advance_nofont res)%Z.
+From GR Require Import Gen.GenSlotAdv Proofs.GenAgreeSlotAdv.
+Theorem C15_slot_advance_scales : forall res scale face_given, GenSlotAdv.slot_advance_unhinted res scale face_given = (scale * GenSlotAdv.slot_advance_nofont res)%Z.
 Proof. exact gen_slot_advance_scales. Qed.
 Print Assumptions C15_slot_advance_scales.
